@@ -46,3 +46,46 @@ def elements(root, skip=('style', 'defs')):
 
 def has_impl_panic(item):
     return [(k, r.panicked()) for k, r in item.runs.items() if r.panicked()]
+
+# ---------------------------------------------------------------- widths (dumped from the pinned unicode-width)
+_W = None
+def char_cols(ch):
+    """columns a character takes in the grid: width().unwrap_or(1).max(1)"""
+    global _W
+    if _W is None:
+        import bisect
+        rows = []
+        for l in open(os.path.join(gens.TABLES, 'width.txt')):
+            a, b, v = l.split(); rows.append((int(a), int(b), int(v)))
+        _W = rows
+    c = ord(ch)
+    lo, hi = 0, len(_W) - 1
+    while lo <= hi:
+        m = (lo + hi) // 2
+        a, b, v = _W[m]
+        if c < a: hi = m - 1
+        elif c > b: lo = m + 1
+        else: return max(v, 1) if v >= 0 else 1
+    return 1
+def text_cols(s): return sum(char_cols(c) for c in s if c != '\x00')
+
+def frag_bounds(f):
+    """bounds in ticks of a dumped fragment: ((x0,y0),(x1,y1))"""
+    k = f['k']
+    if k in ('L', 'ML', 'A', 'R'):
+        (ax, ay), (bx, by) = f['a'], f['b']
+        return (min(ax, bx), min(ay, by)), (max(ax, bx), max(ay, by))
+    if k == 'C':
+        (cx, cy), r = f['c'], f['r']
+        return (cx - r, cy - r), (cx + r, cy + r)
+    if k == 'P':
+        xs = [p[0] for p in f['pts']]; ys = [p[1] for p in f['pts']]
+        return (min(xs), min(ys)), (max(xs), max(ys))
+    if k == 'CT':
+        x, y = f['cell']
+        return (x * 40, y * 80), ((x + text_cols(f['text']) + 1) * 40, (y + 1) * 80)
+    raise ValueError(k)
+
+def contains(outer, inner):
+    (a, b), (c, d) = outer; (e, f), (g, h) = inner
+    return a <= e and b <= f and g <= c and h <= d
